@@ -80,6 +80,7 @@ class Flags:
         self.max_adjacent = max_adjacent
         self.backsplicing_only = backsplicing_only
         self.noncanonical_transcripts = noncanonical_transcripts
+        self.strict_end_nf = False      # liberal reading too: no open C-terminal peptide of an mRNA_end_NF molecule (callAltTranslation)
 
 
 # ------------------------------------------------------------------------------------------
@@ -296,7 +297,7 @@ def backbone_peptides(bb: Backbone, edits, lim: dg.Limits, flags: Flags, must: b
                 if must and known and bb.cds_start_nf:
                     nterm_m = False
                 for p, is_first, is_last in dg.digest(aa, lim, nterm_m=nterm_m):
-                    if must and is_last and not hit and (bb.end_nf or bb.circular):
+                    if (must or getattr(flags, 'strict_end_nf', False)) and is_last and not hit and (bb.end_nf or bb.circular):
                         continue
                     if must and known and bb.cds_start_nf and is_first:
                         # first peptide of an incomplete CDS: its true N-terminus is unknown
